@@ -891,6 +891,8 @@ SPECS["C13"]["theorems"] += [
     "Woodpile.Props.C13.ra_program_order",
     "Woodpile.Props.C13.ra_update_then_snapshot",
     "Woodpile.Props.C13.ra_own_update_visible",
+    "Woodpile.Props.C13.ra_sync_order",
+    "Woodpile.Props.C13.ra_synced_update_visible",
 ]
 SPECS["C18"]["theorems"] += [
     "Woodpile.Props.C18.sc_retry_only_on_publish_during",
@@ -914,7 +916,7 @@ SPECS["C13"]["level_text"] += (' Track abt2: the history is tied to CALLS. State
     'the caller\'s view of sequence at start/return); the bookkeeping is exact (…_bookkeeping_exact); every completed call satisfies Mach.RecOK '
     '(…_calls_sound); END TO END: an update(b,v) that returned, or a try_update(b,v)=true, whose return view is included in a snapshot\'s start view '
     '(U.vRet <= S.vStart: happens-before) makes that snapshot return base >= b (ra_update_then_snapshot); the inclusion holds for calls of one thread in '
-    'program order (ra_program_order, ra_own_update_visible), views only grow and sync transfers them (ra_view_monotone(_run), ra_sync_transfers_view); '
+    'program order (ra_program_order, ra_own_update_visible) and for a call of a thread that synchronised with the updater after the update returned (ra_sync_order, ra_synced_update_visible), views only grow and sync transfers them (ra_view_monotone(_run), ra_sync_transfers_view); '
     'on SC "before" is real time: U\'s last step precedes S\'s start label (sc_real_time_order, sc_completed_update_visible).')
 SPECS["C18"]["level_text"] += (' Track abt2: ONE uniform termination statement on the view machine (ra_solo_snapshot_terminates_uniform: for every '
     'adversarial but admissible reads-from strategy the solo reader returns within soloMeasure own steps; admissible strategies exist, '
